@@ -138,6 +138,8 @@ func (g *c06gen) bytesAny(n int) []byte {
 			b[i] = []byte{'(', ')', '\\', '\r', '\n', '\t', 0, 0xFF, '%', '<', '>', '\b', '\f', ' '}[g.rng.Intn(14)]
 		case 1:
 			b[i] = byte(g.rng.Intn(256))
+		case 2:
+			b[i] = byte('0' + g.rng.Intn(10))
 		default:
 			b[i] = byte('a' + g.rng.Intn(26))
 		}
@@ -183,12 +185,13 @@ func (g *c06gen) sep(need bool) string {
 		return ""
 	case 1:
 		return " "
-	case 3:
-		if g.rng.Bool() {
+	case 3, 4, 5:
+		if g.policy == 3 {
+			nl = []string{"\n", "\r", "\r\n"}[g.rng.Intn(3)]
+		}
+		if g.policy == 3 && g.rng.Bool() || g.rng.Chance(1, 5) {
 			return " %" + []string{"", " comment ) ( >> ", "% x"}[g.rng.Intn(3)] + nl
 		}
-		return nl
-	case 4, 5:
 		return nl
 	}
 	ws := []string{" ", "\t", "\n", "\r", "\f", "\x00", "\r\n", "  "}
@@ -250,7 +253,7 @@ func (g *c06gen) str(s []byte) string {
 			b.WriteString("\\b")
 		case c == '\f' && g.rng.Bool():
 			b.WriteString("\\f")
-		case g.rng.Chance(1, 8):
+		case g.rng.Chance(1, 5):
 			// octal, the short forms only when no octal digit follows
 			if next >= '0' && next <= '7' {
 				fmt.Fprintf(&b, "\\%03o", c)
